@@ -263,16 +263,14 @@ printf("%04x %d\n", operands[n].value, operands[n].type);
         {
           if (operand_count == 1 && operands[0].type == OPERAND_NUM)
           {
-            if (operands[0].use_16_bit == 1 ||
-                operands[0].value < -128 ||
-                operands[0].value >= 0xff)
-            {
-              add_bin8(asm_context, n, IS_OPCODE);
-              add_bin8(asm_context, operands[0].value >> 8, IS_OPCODE);
-              add_bin8(asm_context, operands[0].value & 0xff, IS_OPCODE);
+            // ldhx / cphx #imm16: the immediate is always two bytes.
+            if (check_range(asm_context, "Immediate", operands[0].value, -32768, 0xffff) == -1) { return -1; }
 
-              return 3;
-            }
+            add_bin8(asm_context, n, IS_OPCODE);
+            add_bin8(asm_context, (operands[0].value >> 8) & 0xff, IS_OPCODE);
+            add_bin8(asm_context, operands[0].value & 0xff, IS_OPCODE);
+
+            return 3;
           }
 
           break;
@@ -283,7 +281,7 @@ printf("%04x %d\n", operands[n].value, operands[n].type);
           {
             if (operands[0].use_16_bit == 1 ||
                 operands[0].value < -128 ||
-                operands[0].value >= 0xff)
+                operands[0].value > 0xff)
             {
               break;
             }
@@ -347,7 +345,7 @@ printf("%04x %d\n", operands[n].value, operands[n].type);
           {
             if (operands[0].use_16_bit == 1 ||
                 operands[0].value < -128 ||
-                operands[0].value >= 0xff)
+                operands[0].value > 0xff)
             {
               add_bin8(asm_context, n, IS_OPCODE);
               add_bin8(asm_context, operands[0].value >> 8, IS_OPCODE);
@@ -367,7 +365,7 @@ printf("%04x %d\n", operands[n].value, operands[n].type);
           {
             if (operands[0].use_16_bit == 1 ||
                 operands[0].value < -128 ||
-                operands[0].value >= 0xff)
+                operands[0].value > 0xff)
             {
               add_bin8(asm_context, n, IS_OPCODE);
               add_bin8(asm_context, operands[0].value >> 8, IS_OPCODE);
@@ -385,7 +383,7 @@ printf("%04x %d\n", operands[n].value, operands[n].type);
           {
             if (operands[0].use_16_bit == 1 ||
                 operands[0].value < -128 ||
-                operands[0].value >= 0xff)
+                operands[0].value > 0xff)
             {
               break;
             }
@@ -406,10 +404,10 @@ printf("%04x %d\n", operands[n].value, operands[n].type);
           {
             if (operands[0].use_16_bit == 1 ||
                 operands[0].value < -128 ||
-                operands[0].value >= 0xff ||
+                operands[0].value > 0xff ||
                 operands[1].use_16_bit == 1 ||
                 operands[1].value < -128 ||
-                operands[1].value >= 0xff)
+                operands[1].value > 0xff)
             {
               print_error_range(asm_context, "Address", 0, 0xff);
               return -1;
@@ -459,7 +457,7 @@ printf("%04x %d\n", operands[n].value, operands[n].type);
           {
             if (operands[0].use_16_bit == 1 ||
                 operands[0].value < -128 ||
-                operands[0].value >= 0xff)
+                operands[0].value > 0xff)
             {
               break;
             }
@@ -480,7 +478,7 @@ printf("%04x %d\n", operands[n].value, operands[n].type);
           {
             if (operands[0].use_16_bit == 1 ||
                 operands[0].value < -128 ||
-                operands[0].value >= 0xff)
+                operands[0].value > 0xff)
             {
               break;
             }
